@@ -1,9 +1,9 @@
-(* props/C05.v -- PROPERTY C05 (the part that is logic; PARTIAL): chi2 derivative of every SE(2)/SE(3) edge, the assembled gradient of whole SE(3) and SE(2) graphs is half the gradient of chi2 on the manifold, stationarity <-> zero gradient, descent, consistent configurations, stopping rule.  The quantitative local-convergence claim (basin of attraction, double-precision Newton decrement) is NOT a theorem: it is the calibrated soak test of tools/props/c05.py.
+(* props/C05.v -- PROPERTY C05 (the part that is logic; PARTIAL): chi2 derivative of every SE(2)/SE(3) edge, the gradient assembled for whole SE(3) and SE(2) graphs is half the gradient of chi2 on the manifold (end to end through the assembly algorithm), stationarity <-> zero gradient, descent, consistent configurations, stopping rule.  The quantitative local-convergence claim (basin of attraction, double-precision Newton decrement) is NOT a theorem: it is the calibrated soak test of tools/props/c05.py.
    Only the statement, closed by [exact]; proofs are in proofs/C05_*.v. *)
 From Coq Require Import Reals List Arith Bool.
 From Coquelicot Require Import Coquelicot.
 From GS Require Import ExprR LinAlg Chi2 Wrap GraphModel GNSpec LinearSpec OptLoopR C01_SE3 C01_SE2 C09_SE2 C09_SE3 C10_SE3_boxplus C05_main C05_chi2
-  C03_accumulate C07_glue C07_inst C07_whole C05_grad C05_grad2 C05_all.
+  C03_accumulate C07_glue C07_inst C07_whole C05_grad C05_grad2 C05_assembled C05_all.
 Import ListNotations.
 Open Scope R_scope.
 
@@ -70,6 +70,20 @@ Theorem C05 :
                (2 * spec_b vs (map rec2 (map (descr2 poses) gs)) (gi vs k + i))) /\
   (length ex2_poses = length ex2_vs /\ List.Forall (okg2 ex2_vs ex2_lm ex2_poses) ex2_gs /\
    (1 < length ex2_vs)%nat /\ (2 < dim_at ex2_vs 1)%nat /\ fixed_at ex2_vs 1 = false) /\
+  (* END TO END (proofs/C05_assembled.v): what the ALGORITHM of graph.py (lib/GraphModel.v: contributions, dictionary accumulation, slice writes, fixed
+     vertices zeroed -- tied to graph.py by the exact integer correspondence) assembles from the records of the regenerated programs is half the gradient
+     of the graph's chi^2 along the update curve of every free vertex, and its chi^2 is the graph's chi^2 *)
+  (forall vs lm poses gs k i,
+     length poses = length vs -> List.Forall (fun v => (0 < v_dim v)%nat) vs -> List.Forall (okg vs lm poses) gs ->
+     (k < length vs)%nat -> (i < dim_at vs k)%nat -> fixed_at vs k = false ->
+     is_derive (fun t => chi2_graph (upd poses k (bp3 (lm k) (nth k poses []) (vscale t (basis (dim_at vs k) i)))) gs) 0
+               (2 * assemble_gradient R 0 Rplus Rmult vs (map rec3 (map (descr poses) gs)) (gi vs k + i))
+     /\ assemble_chi2 R 0 Rplus Rmult vs (map rec3 (map (descr poses) gs)) = chi2_graph poses gs) /\
+  (forall vs lm poses gs k i,
+     length poses = length vs -> List.Forall (fun v => (0 < v_dim v)%nat) vs -> List.Forall (okg2 vs lm poses) gs ->
+     (k < length vs)%nat -> (i < dim_at vs k)%nat -> fixed_at vs k = false ->
+     is_derive (fun t => chi2_graph2 (upd poses k (bp2 (lm k) (nth k poses []) (vscale t (basis (dim_at vs k) i)))) gs) 0
+               (2 * assemble_gradient R 0 Rplus Rmult vs (map rec2 (map (descr2 poses) gs)) (gi vs k + i))) /\
   (* the premises are met by a concrete three-vertex graph (two poses, the first fixed, one landmark; one odometry edge, two observations) *)
   (length ex_poses = length ex_vs /\ List.Forall (okg ex_vs ex_lm ex_poses) ex_gs /\
    (1 < length ex_vs)%nat /\ (4 < dim_at ex_vs 1)%nat /\ fixed_at ex_vs 1 = false /\
